@@ -1317,6 +1317,7 @@ def replay(ctx, obj):
     print(json.dumps(res)[:4000])
 
 
+ANCHORS = ["src/ocean_science_utilities/interpolate/dataset.py", "src/ocean_science_utilities/interpolate/nd_interp.py", "src/ocean_science_utilities/interpolate/general.py", "src/ocean_science_utilities/interpolate/dataarray.py", "src/ocean_science_utilities/tools/grid.py", "src/ocean_science_utilities/tools/math.py", "src/ocean_science_utilities/wavespectra/spectrum.py"]
 READY = True
 LEVEL_TEXT = ("Theorems (Coq, all sorted grids of any length, all targets, all NaN patterns, any number of passive positions): "
               "searchsorted-right specification; bracketing indices and weight for a target inside the grid; value at a node = node "
@@ -1333,8 +1334,8 @@ LEVEL_TEXT = ("Theorems (Coq, all sorted grids of any length, all targets, all N
               "interpolation_weights_1d, interpolate_dataset_along_axis / _grid, interpolate_track_data_arrray / interpolate_at_points and "
               "the spectrum wrappers on the same generated inputs; an independent exact-rational evaluator is the failing-input search.")
 LEVEL_NOTE = ("Not proved: nothing about floating point rounding (the extracted model runs in binary64; comparison at 1e-9 relative); "
-              "interp_descending is proved for linear mode (in nearest mode an exact mid point goes to the first node in storage order, "
-              "so the reversed grid differs there by design); the N-axes results are about the corner engine with the per-axis weights as "
+              "descending = reversed grid is proved for linear mode everywhere and for nearest mode away from exact mid points (there the tie "
+              "goes to the first node in storage order, so the two sides differ by design); the N-axes results are about the corner engine with the per-axis weights as "
               "hypotheses plus the two-axis instance; the spectrum theorem covers one axis (the two-axis call is the composition checked by "
               "execution). Validated only by execution: xarray/numpy layout (rank, axis position, dims order, fancy indexing, datetime64 "
               "arithmetic), the choice of periodic variables by name, x/0 = inf in the moment division (model: missing). "
